@@ -478,7 +478,14 @@ func compareGraphsAfterRemoval(ast0, ast1 *syntax.Ast, callable, param string, c
 			continue
 		}
 		in0, in1 := a.ResolvedInputs(), b.ResolvedInputs()
+		// (a map call of the edited callable that was split over the removed
+		// input may change what it maps over, e.g. from a null source to a
+		// literal one, which shows in how its other inputs resolve)
+		mappedTarget := callable != "" && a.Callable().GetId() == callable && a.Call() != nil && a.Call().Mapping != nil
 		for k, v1 := range in1 {
+			if mappedTarget {
+				break
+			}
 			v0, ok := in0[k]
 			if !ok {
 				return "node " + id + " has a new input " + k
@@ -497,6 +504,10 @@ func compareGraphsAfterRemoval(ast0, ast1 *syntax.Ast, callable, param string, c
 		if len(in1) != want {
 			return fmt.Sprintf("node %s has %d inputs after the edit, expected %d", id, len(in1), want)
 		}
+		if mappedTarget {
+			// (nor is it disabled by the disabled source of that split)
+			continue
+		}
 		d0, d1 := a.Disabled(), b.Disabled()
 		if len(d0) != len(d1) {
 			return fmt.Sprintf("node %s has %d disabling conditions after the edit, before %d", id, len(d1), len(d0))
@@ -506,9 +517,10 @@ func compareGraphsAfterRemoval(ast0, ast1 *syntax.Ast, callable, param string, c
 				return fmt.Sprintf("node %s is disabled by %s after the edit, before by %s", id, expStr(d1[i]), expStr(d0[i]))
 			}
 		}
-		if callable != "" && a.Callable().GetId() == callable {
+		if callable != "" {
 			// the map calls a stage forks with follow from what its inputs
-			// depend on: they may shrink with the removed input
+			// depend on: with an input removed they may shrink, for the
+			// stage and for everything downstream of it
 			continue
 		}
 		f0, f1 := a.ForkRoots(), b.ForkRoots()
@@ -544,6 +556,33 @@ func compareGraphsAfterRemoval(ast0, ast1 *syntax.Ast, callable, param string, c
 		return "the top-level call's outputs resolve to " + s1 + ", before the edit to " + s0
 	}
 	return ""
+}
+
+// structOfCallableOrCallerUsed: usesStructOfCallable for the callable or for
+// any pipeline that (transitively) calls it.
+func structOfCallableOrCallerUsed(prog *mrogen.Program, callable string) bool {
+	seen := map[string]bool{callable: true}
+	for changed := true; changed; {
+		changed = false
+		for _, pl := range prog.Pipelines {
+			if seen[pl.Name] {
+				continue
+			}
+			for _, c := range pl.Calls {
+				if seen[c.Callee] {
+					seen[pl.Name] = true
+					changed = true
+					break
+				}
+			}
+		}
+	}
+	for name := range seen {
+		if usesStructOfCallable(prog, name) {
+			return true
+		}
+	}
+	return false
 }
 
 // typeNameUsed: is the callable's name used as the type of a parameter?
@@ -704,7 +743,9 @@ func TestC19Refactor(t *testing.T) {
 				stats.Count("C19", "remove_last_output_of_callable_used_as_type_skipped", 1)
 				return
 			}
-			if usesStructOfCallable(prog, target) {
+			// (the removal cascades to the outputs of calling pipelines that
+			// are bound to the removed one)
+			if structOfCallableOrCallerUsed(prog, target) {
 				if stats.Known("C19/output-edit-through-struct-value") {
 					stats.Count("C19", "excluded:output-edit-through-struct-value", 1)
 					return
